@@ -68,7 +68,9 @@ def check(run, M, tier):
     run.rule("H2", "normalize = sqrt(sum |x|^2, axis=-2, keepdims=True); the iterate is ones(ksp.shape[::-1] + (1,)) so axis -2 is the coil axis")
     run.rule("H3", "_output multiplies by conj(m0/|m0|) (coil 0 becomes |m0| by the identity z conj(z/|z|) = |z|) and by the strict mask max_eig > crop")
     run.rule("H4", "Gram matrices, calibration matrix and SVD truncation are built as documented")
-    run.assume("PowerMethod normalises by norm_func(y) for the same y (decided in C15 rule T5)")
+    run.rule("H5", "PowerMethod._update (sigpy/alg.py, the iteration whose iterate the maps are) is y = A(x); x <- y / norm_func(y) for the same y")
+    from . import c15
+    c15.check_power_method(run, M, "H5")
     init = M.func("sigpy.mri.app.EspiritCalib.__init__")
     out = M.func("sigpy.mri.app.EspiritCalib._output")
     def hook(vn, call, st):
